@@ -1,12 +1,15 @@
 #!/bin/bash
 # usage: try_refactor.sh <patch.diff>   applies a behaviour-preserving change to /repo, runs all quick checks
-# (self-test off), prints every alarm (these would be false alarms), reverts.
+# (self-test off, 6 at a time), prints every alarm (these would be false alarms), reverts.
 patch=$(readlink -f "$1")
 git -C /repo diff --quiet || { echo "/repo not clean"; exit 2; }
 git -C /repo apply "$patch" || exit 2
 cd /verif
+tmp=$(mktemp -d)
+bin/vfcheck -list | tr " " "\n" | grep -v "^$" | xargs -P 6 -I{} sh -c 'VERIF_NO_SELFTEST=1 ./check.sh {} quick > '"$tmp"'/{}.out 2>&1; echo $? > '"$tmp"'/{}.rc'
 for p in $(bin/vfcheck -list); do
-  out=$(VERIF_NO_SELFTEST=1 ./check.sh $p quick 2>&1); rc=$?
-  if [ $rc -ne 0 ]; then echo "== $p rc=$rc"; echo "$out" | grep -E '^\s+(VIOLATED|UNDECIDED)|no verdict|panic|error' | cut -c1-400 | head -8; fi
+  rc=$(cat $tmp/$p.rc)
+  if [ "$rc" != "0" ]; then echo "== $p rc=$rc"; grep -E '^\s+(VIOLATED|UNDECIDED)|no verdict|panic|error' $tmp/$p.out | cut -c1-400 | head -8; fi
 done
+rm -rf $tmp
 git -C /repo checkout -- . ; git -C /repo status --short | head -3
